@@ -213,10 +213,28 @@ class Check:
         self.obligations.append({"name": name, "discharged": bool(ok), "detail": detail[-1500:]})
         return ok
 
+    def tree_lock(self, extra):
+        """The generated Coq files are shared by all checks.  A run whose tree agrees with what is on disk holds a
+        shared lock until it exits; a run that has to rewrite them (another tree: VERIF_REPO, or /repo after such a
+        run) waits for exclusivity and keeps it until it exits, so no other run ever sees generated files, or .vo
+        files built from them, that belong to a different tree."""
+        import fcntl
+        WORK.mkdir(exist_ok=True)
+        self._lockf = open(WORK / "tree.lock", "a+")
+        fcntl.flock(self._lockf, fcntl.LOCK_SH)
+        try:
+            if not translator.differs_from_disk(extra):
+                return
+        except Exception:  # noqa: BLE001 - the translator obligation reports the failure
+            return
+        fcntl.flock(self._lockf, fcntl.LOCK_UN)
+        fcntl.flock(self._lockf, fcntl.LOCK_EX)
+
     def build_and_audit(self) -> bool:
         mod = self.mod
         ok_all = True
         try:
+            self.tree_lock(getattr(mod, "translate", None))
             info = translator.run(getattr(mod, "translate", None))
             self.cov["generated"] = info
             self.ob("translator: Gen/Generated.v regenerated from the current /repo sources", True)
